@@ -42,6 +42,58 @@ def _address_uses(n, params):
     return out
 
 
+def _guarded_bytes(ck, P, rid_cascade, rid_content, st, guard, ret, a, b, seen_keys, anti, cfgname):
+    """A stage `if(G) return memcmp(pa, pb, len) OP 0;` (a fast path for some payload sizes).  Handled here (returns True) when
+    the returned value is a byte comparison; the verdict is recorded."""
+    rv = X.strip(ret.children[0])
+    if rv.k != "BinaryOperator" or rv.op not in FLIP:
+        return False
+    call, zero = X.strip(rv.children[0]), rv.children[1]
+    if X.is_zero(call):
+        call, zero = X.strip(rv.children[1]), rv.children[0]
+    if not (call.k == "CallExpr" and call.callee in ("memcmp", "__builtin_memcmp") and X.is_zero(zero)):
+        return False
+    inst = "guarded-bytes@%d" % st.line
+    pa, pb, ln = X.callee_args(call)
+    if rv.op not in STRICT:
+        ck.violated(rid_cascade, inst, st.where, "byte-comparison stage is not strict (%s 0)" % rv.op, cfgname)
+        return True
+    if _subst_show(pa, a, b) != X.show(pb) and _subst_show(pa, b, a) != X.show(pb):
+        ck.violated(rid_cascade, inst, st.where, "byte comparison of different projections: %s vs %s" % (X.show(pa), X.show(pb)), cfgname)
+        return True
+    lnkey = X.show(ln)
+    lnkey_other = _subst_show(ln, a, b) if X.refs_var(ln, name=a) else _subst_show(ln, b, a)
+    # the guard may only read keys that earlier stages made equal (so it is the same for both arguments) and constants
+    core, neg = X.strip_bool(guard)
+    gkeys = [X.show(m) for m in core.walk() if m.k == "MemberExpr" and not (m.parent is not None and m.parent.k == "MemberExpr")]
+    bad_guard = [k for k in gkeys if k not in seen_keys and _swap_show(k, a, b) not in seen_keys]
+    if bad_guard:
+        ck.violated(rid_cascade, inst, st.where, "the fast path is chosen by %s, which no earlier stage made equal for the two events: the order is not symmetric" % bad_guard[0], cfgname)
+        return True
+    if lnkey in seen_keys or lnkey_other in seen_keys:
+        ck.holds(rid_cascade, inst, st.where, "if(%s) return memcmp(%s, %s, %s) %s 0: length equalised by an earlier stage, guard reads equalised keys only" % (X.show(core), X.show(pa), X.show(pb), lnkey, rv.op), cfgname)
+        for rec, name, node in _fields_read(call):
+            _content_field(ck, rid_content, P, rec, name, node, anti, cfgname)
+        return True
+    n = X.const_int(ln)
+    if n is not None:
+        # a constant length is the payload only if the guard pins the size key to it
+        pinned = core.k == "BinaryOperator" and core.op == "==" and not neg and n in (X.const_int(core.children[0]), X.const_int(core.children[1]))
+        if pinned:
+            ck.holds(rid_cascade, inst, st.where, "compares %d bytes where the payload size is %d" % (n, n), cfgname)
+        else:
+            ck.violated(rid_cascade, inst, st.where, "under `%s` the stage compares %d bytes whatever the payload size: bytes after the payload (left over from the buffer's earlier "
+                        "use, not content) decide the order of two events with equal content" % (X.show(core), n), cfgname)
+        return True
+    ck.violated(rid_cascade, inst, st.where, "length %s of the byte comparison is not the payload size equalised by an earlier stage (stages: %s)" % (lnkey, seen_keys), cfgname)
+    return True
+
+
+def _swap_show(text, a, b):
+    import re
+    return re.sub(r"\b(%s|%s)\b" % (re.escape(a), re.escape(b)), lambda m: b if m.group(1) == a else a, text)
+
+
 def check_extended(ck, P, rid_cascade, rid_content):
     cfgname = P.config
     f = P.fn("msg_is_before_extended")
@@ -65,6 +117,8 @@ def check_extended(ck, P, rid_cascade, rid_content):
                 ok = False
                 continue
             ret = then if then.k == "ReturnStmt" else (then.children[0] if then.k == "CompoundStmt" and len(then.children) == 1 else None)
+            if ret is not None and ret.k == "ReturnStmt" and ret.children and _guarded_bytes(ck, P, rid_cascade, rid_content, st, kids[0], ret, a, b, seen_keys, anti, cfgname):
+                continue
             if cond.k != "BinaryOperator" or cond.op != "!=" or ret is None or ret.k != "ReturnStmt":
                 ck.inconclusive(rid_cascade, "stage@%d" % len(stages), st.where, "not of the form if(k(a) != k(b)) return ...", cfgname)
                 ok = False
@@ -108,7 +162,7 @@ def check_extended(ck, P, rid_cascade, rid_content):
                         ck.violated(rid_cascade, inst, st.where, "last stage is not strict (%s %s 0): two events with equal content would each be before the other" % (X.show(call), rv.op), cfgname)
                         ok = False
                         continue
-                    if _subst_show(pa, a, b) != X.show(pb):
+                    if _subst_show(pa, a, b) != X.show(pb) and _subst_show(pa, b, a) != X.show(pb):
                         ck.violated(rid_cascade, inst, st.where, "byte comparison of different projections: %s vs %s" % (X.show(pa), X.show(pb)), cfgname)
                         ok = False
                         continue
